@@ -47,6 +47,18 @@ ASSUMPTIONS = [
 CONFIGS = [(True, True), (True, False), (False, True), (False, "toggled")]
 
 
+def _name_max():
+    import tempfile
+    base = "/dev/shm" if os.path.isdir("/dev/shm") and os.access("/dev/shm", os.W_OK) else tempfile.gettempdir()
+    try:
+        return min(255, os.pathconf(base, "PC_NAME_MAX"))
+    except (OSError, ValueError):
+        return 255
+
+
+NAME_MAX = _name_max()
+
+
 class NVDict(JSONDict):
     """Validator-less family: lets unserializable values reach the encoder."""
     _backend = "vf.c08.novalidate"
@@ -61,6 +73,8 @@ class NVList(JSONList):
 def shards(tier):
     reps = 1 if tier == "quick" else 6
     s = [{"cls": c.name, "rep": r, "mode": "crash"} for c in JSON_ALL for r in range(reps)]
+    s += [{"cls": c.name, "rep": r, "mode": "crash", "longname": True} for c in JSON_ALL
+          for r in range(max(1, reps // 3))]
     s += [{"cls": c.name, "mode": "unser"} for c in JSON_ALL]
     return s
 
@@ -68,20 +82,25 @@ def shards(tier):
 # ------------------------------------------------------------------ scenario execution
 
 
-def _paths(d, n):
+def _paths(d, n, namelen=None):
+    if namelen:
+        # file 0 gets a base name of exactly ``namelen`` characters (near NAME_MAX the sibling
+        # temporary file of the atomic-replace mode cannot be created)
+        first = "f0_" + "n" * (namelen - 8) + ".json"
+        return [os.path.join(d, first)] + [os.path.join(d, f"f{i}.json") for i in range(1, n)]
     return [os.path.join(d, f"f{i}.json") for i in range(n)]
 
 
 def _write_initial(d, sc):
-    for p, init in zip(_paths(d, len(sc["init"])), sc["init"]):
+    for p, init in zip(_paths(d, len(sc["init"]), sc.get("namelen")), sc["init"]):
         if init != "$ABSENT":
             with open(p, "wb") as f:
                 f.write(json.dumps(dec(init)).encode())
 
 
-def _snapshot(d, n):
+def _snapshot(d, n, namelen=None):
     out = []
-    for p in _paths(d, n):
+    for p in _paths(d, n, namelen):
         try:
             with open(p, "rb") as f:
                 out.append(f.read())
@@ -98,7 +117,7 @@ def make_setup(sc, d, cls=None):
         reset_class_state()
         if not sc["threading"] or sc["threading"] == "toggled":
             cls.disable_multithreading()
-        objs = [cls(filename=p, write_concern=sc["wc"]) for p in _paths(d, len(sc["init"]))]
+        objs = [cls(filename=p, write_concern=sc["wc"]) for p in _paths(d, len(sc["init"]), sc.get("namelen"))]
         if sc["threading"] == "toggled":
             cls.enable_multithreading()
         st8 = {"objs": objs, "ctxs": []}
@@ -161,15 +180,22 @@ def run_scenario(sc, base, acc=None, tier="quick", cls=None, only_point=None):
     shutil.rmtree(d0, ignore_errors=True)
     os.mkdir(d0)
     _write_initial(d0, sc)
-    old = _snapshot(d0, n)
+    nl = sc.get("namelen")
+    old = _snapshot(d0, n, nl)
     rc, meas = crash.run_child(make_setup(sc, d0, cls), make_action(sc, cls), None)
     if rc != 0 or meas is None:
         raise HarnessError("measurement run crashed")
+    new = _snapshot(d0, n, nl)
     if meas["error"]:
-        # the un-crashed operation itself fails: not a scenario for this property
-        return "skip"
-    new = _snapshot(d0, n)
-    if new == old:
+        # the un-crashed operation itself fails (e.g. the temporary file cannot be created): only
+        # a failed save that left every file as it was is a scenario here - a crash anywhere in
+        # the failing attempt must leave the files wholly old as well
+        if new != old or not meas["ios"]:
+            return "skip"
+        if acc is not None:
+            acc.counters["scenarios_with_failing_save"] += 1
+            acc.counters["failing_save." + str(meas["error"]).split(":")[0] + (".longname" if nl else "")] += 1
+    elif new == old:
         return "skip"   # nothing is written: no save to crash
     for b in new:
         if b is not None:
@@ -187,7 +213,7 @@ def run_scenario(sc, base, acc=None, tier="quick", cls=None, only_point=None):
         os.mkdir(d)
         _write_initial(d, sc)
         rc, m2 = crash.run_child(make_setup(sc, d, cls), make_action(sc, cls), (kind, k, j))
-        got = _snapshot(d, n)
+        got = _snapshot(d, n, nl)
         crashed = rc == 137
         bad = None
         for i in range(n):
@@ -202,7 +228,7 @@ def run_scenario(sc, base, acc=None, tier="quick", cls=None, only_point=None):
             break
         if bad is None and crashed:
             # a new collection object must open every file normally
-            for i, p in enumerate(_paths(d, n)):
+            for i, p in enumerate(_paths(d, n, nl)):
                 try:
                     reset_class_state()
                     v = cls(filename=p)()
@@ -235,7 +261,7 @@ def run_scenario(sc, base, acc=None, tier="quick", cls=None, only_point=None):
 # ------------------------------------------------------------------ generation
 
 
-def draw_scenario(draw, ci):
+def draw_scenario(draw, ci, longname=False):
     dom = gen.Dom(ci)
     wc, th = draw(st.sampled_from(CONFIGS))
     kind = draw(st.sampled_from(["op", "op", "flush_obj", "flush_cls", "flush_forced"])) if ci.buffered else "op"
@@ -256,6 +282,9 @@ def draw_scenario(draw, ci):
             init.append(enc(doc))
     sc = {"class": ci.name, "wc": wc, "threading": th, "init": init, "kind": kind,
           "kind_of_root": ci.kind}
+    if longname:
+        # base-name length around the point where '._<uuid4>_<name>' exceeds NAME_MAX
+        sc["namelen"] = NAME_MAX - draw(st.sampled_from([0, 5, 20, 38, 38, 39, 40]))
     mut = (lambda i: {"m": "setitem", "a": enc([f"k{i}", draw(dom.values(4))])}) if ci.kind == "dict" else \
         (lambda i: {"m": "append", "a": enc([draw(dom.values(4))])})
     if kind == "op":
@@ -372,9 +401,11 @@ def run_shard(spec, seed, tier, active):
         return acc.result()
 
     n = 3 if tier == "quick" else 12
+    if spec.get("longname"):
+        n = 3 if tier == "quick" else 8
 
     def one(data):
-        sc = draw_scenario(data.draw, ci)
+        sc = draw_scenario(data.draw, ci, longname=bool(spec.get("longname")))
         d = run_scenario(sc, base, acc, tier)
         if d == "skip":
             acc.counters["skipped_scenarios"] += 1
